@@ -53,6 +53,7 @@ STRIP_CHARS = (
     "    　"
 )
 CONFIGS = [(t, s) for t in "+-~" for s in (True, False)]
+STRIP_CHARS_ALL = " \t\r\n\x0b\x0c"
 
 _STATE: dict[str, Any] = {}
 
@@ -103,7 +104,27 @@ def _programs(seed: int, tier: str) -> dict[str, list[tuple]]:
             c.append(tuple(combo))
     # (D) nests whose inner block mixes blank and non-blank branches (blank-block suppression must look at all of them)
     dd = [(("text", "A\n"), st, ("text", "\nZ")) for st in grammar.mixed_blank_nests(seed, tier == "quick")]
-    return {"A": a, "B": b, "C": c, "D": dd}
+    # (E) branches whose text is blank but which DO something (assign / capture / increment / cycle): suppressing the
+    # blank text must not suppress the effect, on any branch, synchronously or asynchronously
+    g, h, aa, cc = n.g, n.h, n.a, n.c
+    effect_bodies = [
+        (("text", " "), ("assign", aa, ("str", "set")), ("text", " \n")),
+        (("text", "\t"), ("capture", aa, (("text", "cap"),)), ("text", " ")),
+        (("text", " "), ("increment", cc), ("text", " ")),
+    ]
+    T, F = ("true",), ("false",)
+    ee = []
+    for body in effect_bodies:
+        shapes = [
+            ("if", ((F, (("text", "A"),)), (T, body)), None), ("if", ((F, (("text", "A"),)), (F, (("text", "B"),)), (T, body)), (("text", "E"),)),
+            ("if", ((T, body),), (("text", "E"),)), ("if", ((F, (("text", "A"),)),), body),
+            ("unless", T, (("text", "A"),), ((T, body),), None), ("unless", T, (("text", "A"),), (), body),
+            ("case", ("int", 1), (((("int", 2),), (("text", "A"),)), ((("int", 1),), body)), None), ("case", ("int", 3), (((("int", 2),), (("text", "A"),)),), body),
+            ("for", n.i, ("var", "nosuchlist", ()), (), (("text", "A"),), body), ("for", n.i, ("range", ("int", 1), ("int", 2)), (), body, None),
+        ]
+        for st in shapes:
+            ee.append((("text", "x "), st, ("out", ("var", aa, ())), ("out", ("var", cc, ())), ("text", " y")))
+    return {"A": a, "B": b, "C": c, "D": dd, "E": ee}
 
 
 def _setup(tier: str, seed: int) -> None:
@@ -130,6 +151,7 @@ def _setup(tier: str, seed: int) -> None:
         subs=subs,
         data=[ds[1], ds[2], ds[7]],
         envs={(t, s): impl.make_env(trim=t, suppress=s, templates=srcs) for t, s in CONFIGS},
+        env_limited=impl.make_env(trim="+", suppress=False, templates=srcs, limits={"output_stream_limit": 10**7}),
         seed=seed,
     )
 
@@ -157,6 +179,19 @@ def _render(env: Any, src: str, d: dict[str, Any]) -> tuple[str, Any]:
         return ("ok", env.from_string(src).render(**d))
     except LiquidError as e:
         return ("liquid", type(e).__name__)
+
+
+def _render_async(env: Any, src: str, d: dict[str, Any]) -> tuple[str, Any]:
+    from mc.vloop import run_solo
+
+    try:
+        t = env.from_string(src)
+    except LiquidError as e:
+        return ("liquid", type(e).__name__)
+    kind, val = run_solo(t.render_async(**d))
+    if kind == "ok":
+        return ("ok", val)
+    return ("liquid", type(val).__name__) if isinstance(val, LiquidError) else ("foreign", type(val).__name__)
 
 
 def _construct(prog: tuple) -> str:
@@ -210,6 +245,32 @@ def check_program(name: str, prog: tuple, k: int, res: ShardResult | None, only:
             want = "".join(s[1] if s[0] in ("text", "raw") else "" for s in prog)
             if base[1] != want:
                 out.append((f"C18:literal-text-not-verbatim:{cons}", {"markers": [], "trim": "+", "suppress": False}, want, base[1]))
+        # the same unmarked source: rendered asynchronously under every configuration, and with an output limit that is
+        # far from being reached, it gives exactly what the synchronous unlimited render gives
+        for trim, sup in CONFIGS:
+            s_ = _render(envs[(trim, sup)], plain_src, d)
+            a_ = _render_async(envs[(trim, sup)], plain_src, d)
+            if res is not None:
+                res.evaluations += 2
+            if s_ != a_:
+                out.append((f"C18:async-render-differs:{cons}", {"markers": [], "trim": trim, "suppress": sup, "data_index": di}, {"sync": s_}, {"async": a_, "source": plain_src}))
+        lim = _render(_STATE["env_limited"], plain_src, d)
+        if lim != base:
+            out.append((f"C18:unreached-output-limit-changes-output:{cons}", {"markers": [], "trim": "+", "suppress": False, "data_index": di}, {"unlimited": base}, {"limited": lim, "source": plain_src}))
+        # a default trim mode X is, by definition, X written on every marker position that is left unmarked
+        if k:
+            for x in ("-", "~"):
+                for sup in (True, False):
+                    by_default = _render(envs[(x, sup)], plain_src, d)
+                    explicit = _render(envs[("+", sup)], print_program(prog, Layout(markers=(x,) * k)), d)
+                    if res is not None:
+                        res.evaluations += 2
+                    # (the outer edges of a template have no marker position: a default trim mode also trims the text
+                    #  before the first and after the last markup, so the two are compared without their outer whitespace)
+                    if by_default[0] == "ok" and explicit[0] == "ok":
+                        by_default, explicit = ("ok", by_default[1].strip()), ("ok", explicit[1].strip())
+                    if by_default != explicit:
+                        out.append((f"C18:default-trim-differs-from-explicit-markers:{cons}", {"markers": [x] * k, "trim": x, "suppress": sup, "data_index": di}, {"explicit_markers_everywhere": explicit}, {"default_trim": by_default, "source": plain_src}))
         for marks in _assignments(k, name):
             if only is not None and tuple(only) != marks:
                 continue
